@@ -345,9 +345,13 @@ func main() {
 	}
 	r := core.NewResult(prop, "exploration")
 	r.Rule = fmt.Sprintf("all ordered lists without repeats of length 1..%d over the %d-transaction menu (all 11 tx types incl. value-forwarding / reverting / self-destructing contracts, gas payer, boxes with sub-transaction gas prices different from the box's, deposits) mined on the prefix state, and again with every block gas limit at which the pool runs dry at one of the (sub-)transactions (what a full block drops must cost nothing); conservation monitor I1-I4 on every block; a distinct outcome is (packaged count, total fees, burn)", maxLen, len(chainkit.Menu))
-	r.Assume = []string{"single deputy; ordinary heights (no reward block, no deposit refund at a term boundary) — see DESIGN.md for what is not covered", "the only burner in the menu is the contract that self-destructs to itself"}
+	r.Assume = []string{"phase 1: single deputy; ordinary heights (term boundaries are phase T)", "the only burner in the menu is the contract that self-destructs to itself"}
 	r.Extra["cases"] = len(cases)
 	r.Extra["term_histories_planned"] = len(enumerateTerm())
+	r.Rule += " || " + termRuleText()
+	r.Assume = append(r.Assume, "phase T: two genesis deputies, DeputyCount 2, every block confirmed by both deputies before the next is built (no stable-block lag, no forks); burns do not occur in phase T's alphabet; WHEN a pending refund is paid and WHO receives a salary are not asserted (counted against the rule in term_refund_timing_differs / term_salary_receivers_differ)")
 	core.RunShards(r, core.Opt.Workers, nil, core.Opt.Budget+3*time.Minute, nil)
+	compressNotes(r)
+	termSelfCheck(r)
 	core.Finish(r)
 }
